@@ -42,3 +42,57 @@ def external_data_info(eng):
         rec = TRec("_ExternalDataInfo", (("name", TOpt(STR)), ("offset", INT), ("length", INT)))
         eng.add_class(ClassDecl("_ExternalDataInfo", mod="onnx_ir.external_data", record=rec))
     return eng.classes["_ExternalDataInfo"].record
+
+
+GC = "onnx_ir._graph_containers"
+LLM = "onnx_ir._linked_list"
+NA = "onnx_ir._name_authority"
+
+
+def core_ir(eng):
+    """Value / Node / Graph and the tracked containers, with the private slots the invariants talk about."""
+    from pyvc.types import REAL
+    if "Value" in eng.classes:
+        return
+    tensor_protocol(eng)
+    for n in ("TypeObj", "MetadataStore", "Attributes", "Attr", "ModelConfiguration"):
+        opaque_class(eng, n)
+    usage = TRec("Usage", (("node", TRef("Node")), ("idx", INT)))
+    eng.add_class(ClassDecl("Usage", mod=CORE, record=usage))
+    eng.classes["Usage"].record.is_tuple = True
+    USES = eng.DICT(usage, TRef(None))
+    STRMAP = eng.DICT(STR, STR)
+    eng.declare_class_from_source(LLM, "_LinkBox", fields={
+        "prev": TRef("_LinkBox"), "next": TRef("_LinkBox"), "value": TRef(None), "owning_list": TRef("DoublyLinkedSet"),
+        "g_pos": REAL, "g_lim": REAL})
+    BOXMAP = eng.DICT(TRef(None), TRef("_LinkBox"))
+    eng.declare_class_from_source(LLM, "DoublyLinkedSet", fields={
+        "_root": TRef("_LinkBox"), "_length": INT, "_value_ids_to_boxes": BOXMAP})
+    eng.declare_class_from_source(NA, "NameAuthority", fields={
+        "_value_counter": INT, "_node_counter": INT, "_value_names": eng.SET(STR), "_node_names": eng.SET(STR)})
+    eng.declare_class_from_source(CORE, "Value", fields={
+        "_producer": TRef("Node"), "_index": TOpt(INT), "_name": TOpt(STR), "_graph": TRef("Graph"),
+        "_is_graph_input": BOOL, "_is_graph_output": BOOL, "_is_initializer": BOOL, "_uses": USES,
+        "_const_value": TRef("TensorLike"), "_type": TRef("TypeObj"), "_shape": TRef("Shape"),
+        "_metadata": TRef("MetadataStore"), "_metadata_props": STRMAP, "_doc_string": TOpt(STR)}, bases=[])
+    SV = TSeq(TRef("Value"))
+    eng.declare_class_from_source(CORE, "Node", fields={
+        "_inputs": SV, "_outputs": SV, "_graph": TRef("Graph"), "_name": TOpt(STR), "_op_type": STR, "_domain": STR,
+        "_overload": STR, "_version": TOpt(INT), "_attributes": TRef("Attributes"), "_metadata": TRef("MetadataStore"),
+        "_metadata_props": STRMAP, "_doc_string": TOpt(STR), "device_configurations": TSeq(TRef(None))}, bases=[])
+    LV = eng.LIST(TRef("Value"))
+    CV = eng.COUNTER(TRef("Value"))
+    eng.declare_class_from_source(GC, "_GraphIO", fields={"data": LV, "_graph": TRef("Graph"), "_ref_counter": CV})
+    eng.declare_class_from_source(GC, "GraphInputs")
+    eng.declare_class_from_source(GC, "GraphOutputs")
+    INITMAP = eng.DICT(STR, TRef("Value"))
+    eng.declare_class_from_source(GC, "GraphInitializers", fields={"data": INITMAP, "_graph": TRef("Graph")})
+    eng.declare_class_from_source(CORE, "Graph", fields={
+        "_inputs": TRef("GraphInputs"), "_outputs": TRef("GraphOutputs"), "_initializers": TRef("GraphInitializers"),
+        "_nodes": TRef("DoublyLinkedSet"), "_name_authority": TRef("NameAuthority"), "name": TOpt(STR),
+        "_doc_string": TOpt(STR), "_opset_imports": eng.DICT(STR, INT), "_metadata": TRef("MetadataStore"),
+        "_metadata_props": STRMAP}, bases=[])
+    eng.global_overrides[("onnx_ir", "DEBUG")] = VBool(False)
+
+
+from pyvc.types import VBool  # noqa: E402
